@@ -456,12 +456,12 @@ class Linker:
             reloc = rcls(
                 None, offset=relocation.offset, addend=relocation.addend
             )
-            if reloc.can_shrink(sym_value, reloc_value):
+            begin = relocation.offset
+            size = reloc.size()
+            end = begin + size
+            data = reloc_section.data[begin:end]
+            if reloc.can_shrink(sym_value, reloc_value, data):
                 # Apply code patching:
-                begin = relocation.offset
-                size = reloc.size()
-                end = begin + size
-                data = reloc_section.data[begin:end]
                 assert len(data) == size
 
                 # Apply code patch:
